@@ -8,6 +8,7 @@ def run(ctx):
     # T: gated source and gated f (release order = latency pattern: late items finish first), slow and
     #    fast consumer, failures in source and f, cancelled consumer contexts, Close after 0..len results
     bubble_tv(ctx, "TestMapOrd", "parallel", "Trace_MapOrd", "tv.cfg", "mapord", {"n": ctx.pick(500, 5000)}, silent=False)
+    bubble_tv(ctx, "TestMapOrd", "parallel", "Trace_MapOrd", "tv.cfg", "mapord perturbed", {"n": ctx.pick(400, 4000)}, silent=False, perturb=True)
     bubble_tv(ctx, "TestMapOrd", "parallel", "Trace_MapOrd", "tv.cfg", "mapord gomaxprocs=3", {"n": ctx.pick(300, 3000)}, silent=False, env={"GOMAXPROCS": "3"})
     ctx.assumptions += ["a negative buffer size is read as 0, non-positive parallelism as GOMAXPROCS",
                         "f does not look at its context (the harness releases held calls after Close)"]
